@@ -178,6 +178,28 @@ v('diff-raw-values','C17.diff-visible','kv/kv.go','''			return f(key, myValue, f
 v('purge-with-clock','C10.one-cutoff,C02.clock','vtable_common.go','''	err = db.RemoveTombstones(ctx, beforeTime)''','''	err = db.RemoveTombstones(ctx, time.Now())''')
 v('rows-cross-pairing','C01.rows-pairing','vtable_common.go','''				res.ColumnValues[k] = adj(t2, v2, outTime)''','''				res.ColumnValues[k] = adj(t1, v2, outTime)''')
 
+v('order-always-consumed','C06.order-consumed','vtable_common.go','''		if order[0].Column != c.KeyCol {
+			out.AlreadyOrdered = false
+		} else {''','''		if order[0].Column != c.KeyCol {
+			out.EstimatedCost *= 2
+		} else {''')
+v('direction-from-term-count','C06.order-consumed','vtable_common.go','''	if desc {
+		out.IdxStr = "desc " + out.IdxStr''','''	if _ = desc; len(order) > 1 {
+		out.IdxStr = "desc " + out.IdxStr''')
+v('seek-on-kept-cursor','C06.scan-start,C06.fresh-cursor','vtable_common.go','''	var err error
+	c.cursor, err = c.t.Tree.Root.Cursor(ctx)
+	if err != nil {
+		return fmt.Errorf("cursor: %w", err)
+	}
+	if !c.desc {''','''	var err error
+	if c.cursor == nil {
+		c.cursor, err = c.t.Tree.Root.Cursor(ctx)
+		if err != nil {
+			return fmt.Errorf("cursor: %w", err)
+		}
+	}
+	if !c.desc {''')
+
 outdir=HERE+'/checker/selftest/variants'
 for f in os.listdir(outdir):
     if f.startswith('hc-'): os.remove(outdir+'/'+f)
